@@ -153,7 +153,7 @@ class CollectorRun:
             self.hosts[nroots] = R.write_host(self.workdir, frame_source(nroots))
         return self.hosts[nroots]
 
-    def run(self, inst, built, watches=(), extra_conf=None, frame_type='single_frame', public=False):
+    def run(self, inst, built, watches=(), extra_conf=None, frame_type='single_frame', public=False, log_msg=None):
         from deep.api.tracepoint.trigger import LocationAction, LineLocation, Trigger, Location
         mod, path, marks = self.host(len(inst['roots']))
         mod.VALS = [built.objs[r] for r in inst['roots']]
@@ -162,7 +162,7 @@ class CollectorRun:
         rg = R.Rig()
         try:
             conf = {'watches': list(watches), 'frame_type': frame_type, 'stack_type': 'stack', 'fire_count': '1',
-                    'fire_period': '1000', 'log_msg': None,
+                    'fire_period': '1000', 'log_msg': log_msg,
                     'MAX_VARIABLES': inst['maxVars'], 'MAX_STRING_LENGTH': inst['maxStr'],
                     'MAX_COLLECTION_SIZE': inst['maxColl'], 'MAX_VAR_DEPTH': inst['maxDepth']}
             if extra_conf:
